@@ -108,7 +108,7 @@ def gen_history(rng, k):
                 live.append(to)
                 events.append({"kind": "rename", "file": f, "to": to, "pauseMs": pause})
         else:
-            events.append({"kind": "config", "text": rng.choice([CFG, CFG2, CFG3]), "pauseMs": max(pause, 300)})
+            events.append({"kind": "config", "text": rng.choice([CFG, CFG2, CFG, CFG2, CFG, CFG2, CFG3]), "pauseMs": max(pause, 300)})
     return {"id": k, "op": "lsp.history", "files": files, "events": events}
 
 
@@ -271,6 +271,13 @@ def run(ctx):
         altby.setdefault(a["_for"], []).append((a, altres[a["id"]].get("out") or {}))
     for (c, desc, diff, pub) in pending:
         known = None
+        # finding C15-config-change-keeps-old-aggregates: configurations with different sets of enabled aggregate rules
+        # in one history, and only diagnostics of aggregate rules differ
+        cfgs = [c["files"].get(".regal/config.yaml", "")] + [e["text"] for e in c["events"] if e["kind"] == "config"]
+        sparse = {("impossible-not" in t) for t in cfgs}
+        if len(sparse) > 1 and all(x.split("@")[0] in AGG | {"impossible-not"}
+                                   for d in diff.values() for x in d["missing"] + d["extra"]):
+            known = "C15-config-change-keeps-old-aggregates"
         for a, ao in altby.get(c["id"], []):
             if ao.get("idle") and "published" in ao:
                 skip = {"/" + f for f in a["_broken"]}
